@@ -13,6 +13,8 @@ import (
 	"strings"
 	"time"
 
+	"github.com/honeytrap/honeytrap/services/ipp"
+
 	"verif/htlab/internal/core"
 	"verif/htlab/internal/gen"
 	"verif/htlab/internal/lab"
@@ -25,7 +27,7 @@ func init() { core.Register(prop{}) }
 func (prop) ID() string    { return "C17" }
 func (prop) Level() string { return "exploration" }
 func (prop) Rule() string {
-	return "decoder: every operation sequence up to the tier's length over {Byte,Int16,Int32,Uint32,PeekByte,PeekInt16,Data,Copy(n),Seek(n), n=-3..8} on every buffer (lengths 0..6 x 8 contents from boundary bytes), each under its own recover, compared step by step with a cursor model (return value, Available, error flag); longer sequences/buffers seeded. IPP: generated requests (5 operations, 1..3 groups, 0..6 attributes over every supported value tag, 1..3 values, strings 0..300, document 0..64 KiB) posted through the real dispatcher; reply and event compared with an independent encoder. Non-trivial = a sequence in which >=1 operation consumed or returned data / an IPP request that was answered; distinct by (buffer, sequence) / request bytes. IPP requests are also delivered in two segments with another client's complete print job served in between (ipp-overlapped). Every second request of ipp-overlapped is sent by a slow receiver (48-byte window) and another client's exchange is served while its reply is on the way. Every fifth ipp request is sent by a client that closes the connection without reading the reply; its event must be there all the same."
+	return "decoder: every operation sequence up to the tier's length over {Byte,Int16,Int32,Uint32,PeekByte,PeekInt16,Data,Copy(n),Seek(n), n=-3..8} on every buffer (lengths 0..6 x 8 contents from boundary bytes), each under its own recover, compared step by step with a cursor model (return value, Available, error flag); longer sequences/buffers seeded. IPP: generated requests (5 operations, 1..3 groups, 0..6 attributes over every supported value tag, 1..3 values, strings 0..300, document 0..64 KiB) posted through the real dispatcher; reply and event compared with an independent encoder; every request is also decoded by the service's own decoder through the guarded hook ipp.VerifDecode and the flat list of (group tag | value tag, name, value bytes | document length) compared with the encoder's view. Non-trivial = a sequence in which >=1 operation consumed or returned data / an IPP request that was answered; distinct by (buffer, sequence) / request bytes. IPP requests are also delivered in two segments with another client's complete print job served in between (ipp-overlapped). Every second request of ipp-overlapped is sent by a slow receiver (48-byte window) and another client's exchange is served while its reply is on the way. Every fifth ipp request is sent by a client that closes the connection without reading the reply; its event must be there all the same."
 }
 func (prop) Assumptions() []string {
 	return []string{"negative sizes count as 'does not fit'", "Seek with a negative argument inside the buffer is the legitimate rewind the IPP code relies on", "out-of-bounds access is detected by Go's bounds checks on a buffer whose capacity equals its length"}
@@ -310,7 +312,50 @@ func (q ippReq) encode() []byte {
 	return append(b, q.Doc...)
 }
 
+// flat is the request as the independent encoder sees it, in the form of the hook ipp.VerifDecode: header, group
+// tags, one entry per attribute value (the name on the first value of an attribute), the end tag and the length of
+// the document.
+func (q ippReq) flat() []string {
+	out := []string{fmt.Sprintf("header %d.%d %d %d", q.VMajor, q.VMinor, q.Op, q.ReqID)}
+	attr := func(tag byte, name string, vals ...[]byte) {
+		for i, v := range vals {
+			n := name
+			if i > 0 {
+				n = ""
+			}
+			out = append(out, fmt.Sprintf("value %02x %q %x", tag, n, v))
+		}
+	}
+	for g, attrs := range q.Groups {
+		out = append(out, fmt.Sprintf("group %02x", q.GroupTags[g]))
+		if g == 0 {
+			attr(0x47, "attributes-charset", []byte(q.Charset))
+			attr(0x48, "attributes-natural-language", []byte(q.Lang))
+			attr(0x45, "printer-uri", []byte(q.URI))
+			if q.HasUser {
+				attr(0x42, "requesting-user-name", []byte(q.User))
+				attr(0x42, "job-name", []byte(q.Job))
+				attr(0x49, "document-format", []byte(q.Fmt))
+			}
+		}
+		for _, a := range attrs {
+			var vs [][]byte
+			for _, h := range a.Values {
+				v, _ := hex.DecodeString(h)
+				vs = append(vs, v)
+			}
+			attr(a.Tag, a.Name, vs...)
+		}
+	}
+	out = append(out, "group 03", fmt.Sprintf("data %d", len(q.Doc)))
+	return out
+}
+
 type ippObs struct {
+	// DecodeDiff: first difference between what the service's decoder made of the request (hook ipp.VerifDecode)
+	// and what was encoded; empty when they agree
+	DecodeDiff string `json:"decode_diff,omitempty"`
+	Decoded    int    `json:"decoded_entries"`
 	Status   int    `json:"status"`
 	ReplyHex string `json:"reply_hex"`
 	Err      string `json:"err,omitempty"`
@@ -352,6 +397,39 @@ services=["ipp"]
 		q := mkIPP(b.Seed, p.Offset+k)
 		o.Begin(k)
 		var ob ippObs
+		func() {
+			defer func() {
+				if r := recover(); r != nil {
+					ob.DecodeDiff = fmt.Sprintf("the decoder panicked: %v", r)
+				}
+			}()
+			got, err := ipp.VerifDecode(q.encode())
+			want := q.flat()
+			ob.Decoded = len(got)
+			if err != nil {
+				ob.DecodeDiff = "the decoder reports " + err.Error()
+				return
+			}
+			for i := 0; i < len(got) || i < len(want); i++ {
+				g, w := "(nothing)", "(nothing)"
+				if i < len(got) {
+					g = got[i]
+				}
+				if i < len(want) {
+					w = want[i]
+				}
+				if g != w {
+					if len(g) > 90 {
+						g = g[:90] + "..."
+					}
+					if len(w) > 90 {
+						w = w[:90] + "..."
+					}
+					ob.DecodeDiff = fmt.Sprintf("entry %d decoded as [%s], encoded [%s] (%d entries decoded, %d encoded)", i, g, w, len(got), len(want))
+					return
+				}
+			}
+		}()
 		ev0 := lab.Events.Len()
 		port := 10000 + k%50000
 		cc := srv.L.DialTCP(lab.TCPAddr("10.0.0.1", 631), lab.TCPAddr("203.0.113.7", port))
@@ -555,6 +633,9 @@ func (prop) Judge(b core.Batch, recs []core.Rec, exits []core.Exit) []core.Resul
 				res.Sample = map[string]interface{}{"mode": "ipp", "operation": q.Op, "request_id": q.ReqID, "groups": len(q.Groups), "value_tags": attrTagsIn(q), "document_bytes": len(q.Doc), "reply_head_hex": ob.ReplyHex[:mini(len(ob.ReplyHex), 64)], "event": ob.Event}
 			}
 			kinds := failingKinds(q)
+			if ob.DecodeDiff != "" {
+				fail("ipp-decode|"+kindsClass(q), fmt.Sprintf("the request does not decode to what was encoded: %s; attribute kinds present: %s", ob.DecodeDiff, kinds))
+			}
 			if ob.HangUp {
 				// no reply was waited for: the event is what is judged (document-bearing print jobs; other operations
 				// give an event as well)
